@@ -35,10 +35,13 @@ type Contract struct {
 	Modifies    []string             // frame: array-name patterns this function may write; nil = inferred
 	HasModifies bool
 	Callback    map[string][]*Clause // function-typed parameter -> ensures assumed after each call
+	CallbackPreserves map[string][]string
 	CallbackPre map[string][]*Clause // function-typed parameter -> obligations before each call
 	Asserts     []CallAssert
 	Locals      map[string]string // local alias -> "name#ordinal"
 	MayPanic    bool
+	Preserves   []string          // array-name prefixes that a call to this function leaves unchanged even though its effect is "everything"
+	NoWrite     []*Clause         // struct types none of whose fields the body may store to (unless the object is its own allocation)
 	NoTypeInv   bool              // the method neither needs nor re-establishes the receiver's type invariant (String(), ...)
 	NilableRecv bool              // the method tolerates a nil receiver (no call-site obligation, no entry assumption)
 	Nilable     map[string]bool   // parameters of func/interface type that may be nil
@@ -62,6 +65,8 @@ type ContractDB struct {
 	effectFns  map[string]bool // dependency functions with externally visible effects: every call needs a call-site assert
 	effectPkgs map[string]bool // packages all of whose functions are effectful unless listed as observers
 	observers  map[string]bool
+	ifacePreserves map[string][]string
+	nonnilIface map[string]bool
 	pureIface  map[string]bool // "pkg.Iface.Method": assumed pure, modelled as an uninterpreted function of receiver and arguments
 	pureFields map[string]bool // "pkg.Struct.field": function-typed field whose values are pure functions
 	typeinv map[string][]*Clause // receiver prefix "(*pkg.T)" -> invariant over `self`, required and ensured by every method
@@ -81,7 +86,7 @@ type PredDef struct {
 }
 
 func newContractDB() *ContractDB {
-	return &ContractDB{byFunc: map[string]*Contract{}, preds: map[string]*PredDef{}, specFn: map[string]*SpecFn{}, typeinv: map[string][]*Clause{}, pureFields: map[string]bool{}, pureIface: map[string]bool{}, effectFns: map[string]bool{}, closedTerms: map[string]bool{}, pureFns: map[string]bool{}, effectPkgs: map[string]bool{}, observers: map[string]bool{}}
+	return &ContractDB{byFunc: map[string]*Contract{}, preds: map[string]*PredDef{}, specFn: map[string]*SpecFn{}, typeinv: map[string][]*Clause{}, pureFields: map[string]bool{}, pureIface: map[string]bool{}, nonnilIface: map[string]bool{}, ifacePreserves: map[string][]string{}, effectFns: map[string]bool{}, closedTerms: map[string]bool{}, pureFns: map[string]bool{}, effectPkgs: map[string]bool{}, observers: map[string]bool{}}
 }
 
 func splitTags(kw string) (string, []string) {
@@ -147,8 +152,9 @@ func (db *ContractDB) load(path string) error {
 		}
 		switch kw {
 		case "func", "extern":
-			if db.byFunc[rest] != nil {
-				panic(fmt.Sprintf("%s:%d: duplicate contract for %s", path, ln, rest))
+			if ex := db.byFunc[rest]; ex != nil {
+				cur = ex // several blocks (one per property file) extend the same contract
+				break
 			}
 			cur = &Contract{Func: rest, Loops: map[int]*LoopSpec{}, Callback: map[string][]*Clause{}, CallbackPre: map[string][]*Clause{}, Locals: map[string]string{}, File: path, Line: ln}
 			cur.Trusted = kw == "extern"
@@ -206,10 +212,18 @@ func (db *ContractDB) load(path string) error {
 		case "iface":
 			// iface pkg.Iface.Method: pure
 			nm, what, _ := strings.Cut(rest, ":")
-			if strings.TrimSpace(what) != "pure" {
-				panic(fmt.Sprintf("%s:%d: iface supports only pure", path, ln))
+			what = strings.TrimSpace(what)
+			if what != "pure" && what != "pure nonnil" && !strings.HasPrefix(what, "preserves ") {
+				panic(fmt.Sprintf("%s:%d: iface supports only pure / pure nonnil", path, ln))
+			}
+			if strings.HasPrefix(what, "preserves ") {
+				db.ifacePreserves[strings.TrimSpace(nm)] = preservePrefixes(strings.TrimPrefix(what, "preserves "))
+				break
 			}
 			db.pureIface[strings.TrimSpace(nm)] = true
+			if what == "pure nonnil" {
+				db.nonnilIface[strings.TrimSpace(nm)] = true
+			}
 		case "fieldfn":
 			// fieldfn pkg.Struct.field: pure
 			nm, what, _ := strings.Cut(rest, ":")
@@ -257,6 +271,12 @@ func (db *ContractDB) load(path string) error {
 		case "may_panic":
 			need()
 			cur.MayPanic = true
+		case "preserves":
+			need()
+			cur.Preserves = append(cur.Preserves, preservePrefixes(rest)...)
+		case "nowrite":
+			need()
+			cur.NoWrite = append(cur.NoWrite, &Clause{Tags: tags, Src: rest, File: path, Line: ln})
 		case "no_typeinv":
 			need()
 			cur.NoTypeInv = true
@@ -297,6 +317,11 @@ func (db *ContractDB) load(path string) error {
 				cur.Callback[name] = append(cur.Callback[name], parse(ex))
 			case "requires":
 				cur.CallbackPre[name] = append(cur.CallbackPre[name], parse(ex))
+			case "preserves":
+				if cur.CallbackPreserves == nil {
+					cur.CallbackPreserves = map[string][]string{}
+				}
+				cur.CallbackPreserves[name] = append(cur.CallbackPreserves[name], preservePrefixes(ex)...)
 			default:
 				panic(fmt.Sprintf("%s:%d: callback supports requires/ensures", path, ln))
 			}
@@ -328,6 +353,23 @@ func (db *ContractDB) load(path string) error {
 		}
 	}
 	return nil
+}
+
+// preservePrefixes: "pkg.T" -> fields of struct T; "cells:T" -> cells of type T; "map:K=>V" -> a map type's arrays.
+func preservePrefixes(s string) []string {
+	var out []string
+	for _, t := range strings.Fields(s) {
+		switch {
+		case strings.HasPrefix(t, "cells:"):
+			out = append(out, "C|"+strings.TrimPrefix(t, "cells:")+"|")
+		case strings.HasPrefix(t, "map:"):
+			k := strings.TrimPrefix(t, "map:")
+			out = append(out, "MH|"+k, "MV|"+k)
+		default:
+			out = append(out, "F|"+t+"|")
+		}
+	}
+	return out
 }
 
 // typeInvFor returns the type invariants that apply to fn (a method whose receiver type has a typeinv).
